@@ -15,7 +15,8 @@ About the OLD definition (one alias table shared by variables and parameters), k
   * `scope_renaming_partial_old` — invariance only when no variable is spelled like a parameter;
   * `c06_full_refuted_old`, `f10_results_old` — the unrestricted statement was FALSE (F10 witness).
 Independent of the fix:
-  * `fallback_lookup_captures` — the `Lookup`-then-`AliasedLookup` fallback is not hygienic (witness; known finding);
+  * `fallback_lookup_captures` — a `Lookup`-then-`AliasedLookup` fallback is not hygienic (witness of the finding fixed in
+    /repo e63912b; `Sites.alias_keys_user_only` proves that the tree has no such fallback any more);
   * `prune_alias_choice_unique` — the first-match loops of PruneDefinitions over the alias maps do not depend on
     iteration order on reachable scopes (used by C05).
 -/
